@@ -567,8 +567,18 @@ func VerifC03LateReply() {
 	vx, _ := verifRenderVaxis(4, 3)
 	vx.queue = make(chan Event, 8)
 	vx.chCursorPos = make(chan [2]int)
-	row, col := vx.CursorPosition() // nobody answers
-	zzverif.Assert(row == -1 && col == -1, "unanswered-query-times-out")
+	if zzverif.Bool("truncatedReplyInstead") {
+		// a request is outstanding and the terminal answers with a truncated report (one
+		// parameter): the request is over, whatever comes next is input again
+		atomicStore(&vx.reqCursorPos, true)
+		vx.handleSequence(ansi.CSI{Final: 'R', Parameters: [][]int{{5}}})
+		for len(vx.queue) > 0 {
+			<-vx.queue
+		}
+	} else {
+		row, col := vx.CursorPosition() // nobody answers
+		zzverif.Assert(row == -1 && col == -1, "unanswered-query-times-out")
+	}
 	r, c := int(zzverif.Byte("r")), int(zzverif.Byte("c"))
 	zzverif.Terminates(3000)
 	vx.handleSequence(ansi.CSI{Final: 'R', Parameters: [][]int{{r}, {c}}})
